@@ -167,6 +167,9 @@ def _one(prop: str, kind: str, name: str, gen, expect_keys: Optional[List[str]])
             return {"kind": kind, "name": name, "status": "skipped (does not apply to the current tree)"}
         rc, out = _run(prop, d)
         fails = [l.strip() for l in out.splitlines() if l.strip().startswith("FAIL")]
+        if kind == "seed-not-decided":
+            return {"kind": kind, "name": name, "status": {1: "fired (now detected)", 2: "analysis-error", 0: "silent (recorded blind spot)"}.get(rc, str(rc)),
+                    "ok": True, "reported": fails[:1]}
         if kind == "seed-known-miss":
             return {"kind": kind, "name": name, "status": {1: "fired (now detected)", 2: "analysis-error (not decided on this shape)", 0: "silent"}.get(rc, str(rc)),
                     "ok": rc != 0, "reported": fails[:1]}
@@ -192,7 +195,9 @@ def run_selftest(prop: str) -> Dict[str, Any]:
         keys = []
         for inst in meta.get("rule_instances", {}).get(prop, []):
             keys.append(inst.split(" [")[0])          # "Cxx.Rn construct"
-        if meta.get("detected_by_own_property_check") is False:
+        if meta.get("not_decided"):
+            jobs.append(("seed-not-decided", sd.name, v_patch(patch), keys))     # recorded blind spot: reported, never counted as detected
+        elif meta.get("detected_by_own_property_check") is False:
             jobs.append(("seed-known-miss", sd.name, v_patch(patch), keys))   # recorded limitation: must at least not pass silently
         else:
             jobs.append(("seed", sd.name, v_patch(patch), keys))
